@@ -47,7 +47,7 @@ def plan(tier, prop):
                             "explicit_dict", "dict_reused", "no_options",
                             "mc_boot", "mc_boot_already_booted",
                             "mc_boot_failed", "max_size_image",
-                            "short_last_block"],
+                            "short_last_block", "send_error_reached_caller"],
         "knob_ranges": {"image_bytes": "512..32764 (word multiples) or "
                         "bundled scamp.boot", "boots": "1-5",
                         "boot_delay": [0.0, 0.01, 0.05],
@@ -238,6 +238,36 @@ class BootEngine(object):
                 opts[f.name] = t.draw(1 << (8 * f.size))
         return opts
 
+    def send_hook(self, sock, data):
+        if self.fail_at is None or self.fail_fired or \
+                sock.peer[1] != self.boot_port:
+            return False
+        self.n_boot_sends += 1
+        if self.n_boot_sends - 1 == self.fail_at:
+            self.fail_fired = True
+            return True
+        return False
+
+    def send_exc(self):
+        return (OSError,) if self.fail_at is not None else ()
+
+    def send_failed(self, status, val, what):
+        """The socket error of a failed send reaches the caller (a call that
+        carries on instead is judged by the datagrams that did go out)."""
+        w = self.w
+        if status != "exc" or not isinstance(val, OSError):
+            return False
+        if not self.fail_fired:
+            w.violate("E", "%s raised %s although every send succeeded"
+                      % (what, type(val).__name__),
+                      kind="unexpected-exception", exc=type(val).__name__)
+        w.probe("send_error_reached_caller")
+        w.ops[-1] += " -> %s (send #%d failed)" % (type(val).__name__,
+                                                   self.fail_at)
+        self.cur = None
+        w.ops_completed += 1
+        return True
+
     def op_boot(self, heal=False):
         t, w = self.t, self.w
         host = "board%d" % t.draw(len(self.machines))
@@ -291,6 +321,12 @@ class BootEngine(object):
         kwargs["boot_delay"] = [0.0, 0.01, 0.05][t.draw(3)]
         via_mc = bool(t.draw(3) == 0) or heal
         m = self.machines[ip]
+        # a send() of this call that fails (nothing leaves the host)
+        self.fail_at = None
+        self.fail_fired = False
+        self.n_boot_sends = 0
+        if self.send_errors and not heal and t.draw(3) == 0:
+            self.fail_at = t.draw_small(40, 0.85)
         self.cur = []
         self.clock_seen = []
         tmin = w.sim.host_now
@@ -313,9 +349,12 @@ class BootEngine(object):
                                               boot_port=self.boot_port)
             kwargs["post_boot_delay"] = 2.0
             status, val = rigcall(
-                w, (self.mcmod.SpiNNakerBootError, self.scp.TimeoutError),
+                w, (self.mcmod.SpiNNakerBootError, self.scp.TimeoutError) +
+                self.send_exc(),
                 mc.boot, only_if_needed=only, check_booted=check, **kwargs)
             lossy = self.policy.active and self.policy.rate("req_loss") > 0
+            if self.send_failed(status, val, "MachineController.boot"):
+                return
             if status == "ok" and val is False:
                 w.probe("mc_boot_already_booted")
                 # (a boot sent earlier with a short post_boot_delay may
@@ -367,10 +406,12 @@ class BootEngine(object):
             if only and was_booted and status == "ok":
                 pass
         else:
-            status, val = rigcall(w, (), self.bootmod.boot, host,
+            status, val = rigcall(w, self.send_exc(), self.bootmod.boot, host,
                                   boot_port=self.boot_port,
                                   post_boot_delay=[0.0, 2.0][t.draw(2)],
                                   **kwargs)
+            if self.send_failed(status, val, "boot.boot"):
+                return
             if status == "ok":
                 structs = val
                 w.ops[-1] += " -> ok"
@@ -407,6 +448,8 @@ class BootEngine(object):
             timeout=0.05, jitter=0.0, fifo_requests=True)
         self.net = SimNetwork(w, self.policy)
         self.net.on_tx = self.on_tx
+        self.net.send_fail_hook = self.send_hook
+        self.send_errors = t.draw(4) == 0
         self.boot_port = [54321, 54321, 12345][t.draw(3)]
         self.boot_time = [0.5, 1.5, 1.9][t.draw(3)]
         self.unknown_for = [0.0, 0.25, 1.0][t.draw(3)]
